@@ -3,6 +3,8 @@ package main
 
 import (
 	"fmt"
+	"math"
+	"math/big"
 
 	timepb "github.com/smart-core-os/sc-api/go/types/time"
 	"google.golang.org/protobuf/proto"
@@ -15,11 +17,18 @@ import (
 func main() { vk.Main("C18", run) }
 
 func run(r *vk.Run) {
-	r.Describe("periods: every ordered pair of periods with endpoints in {unbounded, 0..5}s x nanos {0,1,999999999} (bounded, start<end) checked against max(starts)<min(ends) / <=; "+
-		"timestamps: exhaustive small grid plus random 64-bit-range pairs and triples checked for sign, antisymmetry, transitivity; "+
-		"segments/modes: random step functions compared pointwise with brute-force evaluation. A case is distinct by its rendered inputs and non-trivial when it reaches the function under test with in-domain arguments.",
-		"float32 magnitudes and lengths are small integers so arithmetic is exact",
-		"bounded periods are taken with start < end; empty or inverted periods are counted as out-of-domain observations")
+	r.Describe("periods: every ordered pair of periods with endpoints in {unbounded, 0..5}s x nanos {0,1,999999999} (bounded, start<end) plus random pairs over the 64-bit seconds range, checked against max(starts)<min(ends) / <= on exact integers, both argument orders; "+
+		"timestamps: every pair and triple of a small grid plus random 64-bit-range pairs and triples checked for result in {-1,0,1}, chronological sign, antisymmetry, transitivity; "+
+		"segments: every list of <=3 (thorough 4) segments over magnitudes {0,1,2} x lengths {0,1,2}ns (last optionally infinite) with every segmentpb operation at every integer instant, Sum of every ordered pair of the <=2-segment lists, "+
+		"then random cases of 1-4 lists of 0-6 segments (magnitudes 0..4, lengths 0..4 units, unit in {1ns,2ns,1s,1.5s,999999999ns,1h}, zero-length and final infinite segments included): ActiveAt/MagnitudeAt/MaxAfter at every breakpoint, its neighbours, midpoints and beyond the end, Shift by each of those in both directions, Cut of every segment around its bounds, Sum of every prefix of the lists; "+
+		"modes: the same lists with start time absent / present (base times 2020, around the Unix epoch with a nanosecond carry, and 0001-01-01 = Go's zero time) through modepb ActiveAt/MagnitudeAt/MaxSegmentAfter/MinAt/Cut/Shift/Sum, exhaustive over small modes and pairs of modes. "+
+		"Every result list is read as a step function (absent = 0) and compared point by point with the definition; every argument is shadow-copied (element pointers, deep copies, sentinels in spare slice capacity) and re-compared after each call. "+
+		"A case is distinct by its rendered inputs and non-trivial when it has at least one segment / in-domain arguments.",
+		"float32 magnitudes and lengths are small non-negative integers so arithmetic is exact",
+		"bounded periods are taken with start < end; empty or inverted periods are counted as out-of-domain observations",
+		"only the last segment of a list may lack a length (sc-api: 'Only the last segment of a mode can have an absent length')",
+		"timestamps are normalised (0 <= nanos < 1e9)",
+		"the 'outside' results of Cut and the tie-break of Max are observed, not judged (the statement does not fix them)")
 	periods(r)
 	timestamps(r)
 	segments(r)
@@ -48,6 +57,92 @@ func (e endpoint) String() string {
 	return fmt.Sprintf("%d.%09d", e.s, e.n)
 }
 
+// bigKey is the position of a timestamp on the timeline as an exact integer number of nanoseconds.
+func bigKey(t *timestamppb.Timestamp) *big.Int {
+	k := new(big.Int).Mul(big.NewInt(t.Seconds), big.NewInt(1_000_000_000))
+	return k.Add(k, big.NewInt(int64(t.Nanos)))
+}
+
+var bigInf = new(big.Int).Lsh(big.NewInt(1), 100)
+
+// periodOracle decides overlap on the dense timeline: [lo1,hi1) and [lo2,hi2) with absent ends at -inf/+inf.
+func periodOracle(p1, p2 *timepb.Period) (intersect, connected bool) {
+	lo := func(p *timepb.Period) *big.Int {
+		if p.StartTime == nil {
+			return new(big.Int).Neg(bigInf)
+		}
+		return bigKey(p.StartTime)
+	}
+	hi := func(p *timepb.Period) *big.Int {
+		if p.EndTime == nil {
+			return bigInf
+		}
+		return bigKey(p.EndTime)
+	}
+	maxLo, minHi := lo(p1), hi(p1)
+	if l := lo(p2); l.Cmp(maxLo) > 0 {
+		maxLo = l
+	}
+	if h := hi(p2); h.Cmp(minHi) < 0 {
+		minHi = h
+	}
+	c := maxLo.Cmp(minHi)
+	return c < 0, c <= 0
+}
+
+func periodDesc(p *timepb.Period) string {
+	e := func(t *timestamppb.Timestamp) string {
+		if t == nil {
+			return "-"
+		}
+		return fmt.Sprintf("%d.%09d", t.Seconds, t.Nanos)
+	}
+	return "[" + e(p.StartTime) + "," + e(p.EndTime) + ")"
+}
+
+func checkPeriodPair(r *vk.Run, m1, m2 *timepb.Period, stream string) {
+	c1, c2 := proto.Clone(m1), proto.Clone(m2)
+	wantI, wantC := periodOracle(m1, m2)
+	var gotI, gotC, revI, revC bool
+	desc := periodDesc(m1) + " " + periodDesc(m2)
+	if panicked, what := vk.Recover(func() {
+		gotI, gotC = sctime.PeriodsIntersect(m1, m2), sctime.PeriodsConnected(m1, m2)
+		revI, revC = sctime.PeriodsIntersect(m2, m1), sctime.PeriodsConnected(m2, m1)
+	}); panicked {
+		r.Violation("C18/Periods/panic", "panic on "+desc+": "+what, desc)
+		return
+	}
+	r.Eval(4)
+	r.Distinct("period:" + desc)
+	r.Count("period-pairs-"+stream, 1)
+	switch {
+	case wantI:
+		r.Count("period-pairs-overlapping", 1)
+	case wantC:
+		r.Count("period-pairs-touching", 1)
+	default:
+		r.Count("period-pairs-apart", 1)
+	}
+	if r.WantSample("period-pair-" + stream) {
+		r.Sample("period-pair-"+stream, map[string]any{"p1": periodDesc(m1), "p2": periodDesc(m2), "intersect": gotI, "connected": gotC})
+	}
+	if gotI != wantI {
+		r.Violation("C18/PeriodsIntersect/value", fmt.Sprintf("PeriodsIntersect(%s) = %v, dense-timeline oracle says %v", desc, gotI, wantI), desc)
+	}
+	if gotC != wantC {
+		r.Violation("C18/PeriodsConnected/value", fmt.Sprintf("PeriodsConnected(%s) = %v, dense-timeline oracle says %v", desc, gotC, wantC), desc)
+	}
+	if revI != gotI {
+		r.Violation("C18/PeriodsIntersect/symmetry", "asymmetric on "+desc, desc)
+	}
+	if revC != gotC {
+		r.Violation("C18/PeriodsConnected/symmetry", "asymmetric on "+desc, desc)
+	}
+	if !proto.Equal(m1, c1) || !proto.Equal(m2, c2) {
+		r.Violation("C18/Periods/mutates-input", "argument changed on "+desc, desc)
+	}
+}
+
 func periods(r *vk.Run) {
 	var eps []endpoint
 	eps = append(eps, endpoint{unbounded: true})
@@ -58,27 +153,18 @@ func periods(r *vk.Run) {
 	}
 	type period struct{ a, b endpoint }
 	var ps []period
+	ood := 0
 	for _, a := range eps {
 		for _, b := range eps {
 			if !a.unbounded && !b.unbounded && a.key() >= b.key() {
-				r.Count("periods-out-of-domain(start>=end)", 1)
+				ood++
 				continue
 			}
 			ps = append(ps, period{a, b})
 		}
 	}
-	const inf = int64(1) << 62
-	lo := func(p period) int64 {
-		if p.a.unbounded {
-			return -inf
-		}
-		return p.a.key()
-	}
-	hi := func(p period) int64 {
-		if p.b.unbounded {
-			return inf
-		}
-		return p.b.key()
+	if r.Shard == 0 {
+		r.Count("periods-out-of-domain(start>=end, not judged)", ood)
 	}
 	idx := 0
 	for _, p1 := range ps {
@@ -87,36 +173,67 @@ func periods(r *vk.Run) {
 			if !r.Mine(idx) {
 				continue
 			}
-			m1 := &timepb.Period{StartTime: p1.a.ts(), EndTime: p1.b.ts()}
-			m2 := &timepb.Period{StartTime: p2.a.ts(), EndTime: p2.b.ts()}
-			c1, c2 := proto.Clone(m1), proto.Clone(m2)
-			maxLo, minHi := max(lo(p1), lo(p2)), min(hi(p1), hi(p2))
-			wantI, wantC := maxLo < minHi, maxLo <= minHi
-			gotI, gotC := sctime.PeriodsIntersect(m1, m2), sctime.PeriodsConnected(m1, m2)
-			r.Eval(2)
-			desc := fmt.Sprintf("[%v,%v) [%v,%v)", p1.a, p1.b, p2.a, p2.b)
-			r.Distinct("period:" + desc)
-			if r.WantSample("period-pair") {
-				r.Sample("period-pair", map[string]any{"p1": fmt.Sprintf("[%v,%v)", p1.a, p1.b), "p2": fmt.Sprintf("[%v,%v)", p2.a, p2.b), "intersect": gotI, "connected": gotC})
-			}
-			if gotI != wantI {
-				r.Violation("C18/PeriodsIntersect/value", fmt.Sprintf("PeriodsIntersect(%s) = %v, dense-timeline oracle says %v", desc, gotI, wantI), desc)
-			}
-			if gotC != wantC {
-				r.Violation("C18/PeriodsConnected/value", fmt.Sprintf("PeriodsConnected(%s) = %v, dense-timeline oracle says %v", desc, gotC, wantC), desc)
-			}
-			if sctime.PeriodsIntersect(m2, m1) != gotI {
-				r.Violation("C18/PeriodsIntersect/symmetry", "asymmetric on "+desc, desc)
-			}
-			if sctime.PeriodsConnected(m2, m1) != gotC {
-				r.Violation("C18/PeriodsConnected/symmetry", "asymmetric on "+desc, desc)
-			}
-			if !proto.Equal(m1, c1) || !proto.Equal(m2, c2) {
-				r.Violation("C18/Periods/mutates-input", "argument changed on "+desc, desc)
-			}
+			checkPeriodPair(r, &timepb.Period{StartTime: p1.a.ts(), EndTime: p1.b.ts()}, &timepb.Period{StartTime: p2.a.ts(), EndTime: p2.b.ts()}, "grid")
 		}
 	}
-	r.Count("period-pairs", len(ps)*len(ps))
+	r.Require("period-pairs-grid", len(ps)*len(ps))
+
+	// random periods over the whole 64-bit seconds range, clustered so that touching and overlapping are common
+	n := r.Pick(50000, 2000000)
+	for i := 0; i < n; i++ {
+		if !r.Mine(i) {
+			continue
+		}
+		rng := r.CaseRand("periods", i)
+		var centre int64
+		switch rng.Intn(4) {
+		case 0:
+			centre = int64(rng.Uint64())
+		case 1:
+			centre = math.MaxInt64 - 3
+		case 2:
+			centre = math.MinInt64 + 3
+		default:
+			centre = int64(rng.Range(-5, 5))
+		}
+		pool := make([]*timestamppb.Timestamp, 4)
+		for j := range pool {
+			sec := centre
+			if d := int64(rng.Range(-3, 3)); (d > 0 && sec <= math.MaxInt64-d) || (d < 0 && sec >= math.MinInt64-d) {
+				sec += d
+			}
+			pool[j] = &timestamppb.Timestamp{Seconds: sec, Nanos: []int32{0, 1, 500000000, 999999999}[rng.Intn(4)]}
+		}
+		gen := func() (*timepb.Period, bool) {
+			p := &timepb.Period{}
+			if !rng.Chance(1, 5) {
+				p.StartTime = proto.Clone(pool[rng.Intn(4)]).(*timestamppb.Timestamp)
+			}
+			if !rng.Chance(1, 5) {
+				p.EndTime = proto.Clone(pool[rng.Intn(4)]).(*timestamppb.Timestamp)
+			}
+			if p.StartTime != nil && p.EndTime != nil {
+				switch chrono(p.StartTime, p.EndTime) {
+				case 0:
+					return nil, false
+				case 1:
+					p.StartTime, p.EndTime = p.EndTime, p.StartTime
+				}
+			}
+			return p, true
+		}
+		p1, ok1 := gen()
+		p2, ok2 := gen()
+		if !ok1 || !ok2 {
+			r.Count("periods-out-of-domain(start>=end, not judged)", 1)
+			continue
+		}
+		checkPeriodPair(r, p1, p2, "random")
+	}
+	r.Require("period-pairs-random", n/2)
+	r.Require("period-pairs-overlapping", 10000)
+	r.Require("period-pairs-touching", 2000)
+	r.Require("period-pairs-apart", 5000)
 }
 
 func sign(x int64) int {
@@ -129,18 +246,73 @@ func sign(x int64) int {
 	return 0
 }
 
+// chrono is the chronological order of two normalised timestamps.
 func chrono(a, b *timestamppb.Timestamp) int {
-	if a.Seconds != b.Seconds {
-		if a.Seconds < b.Seconds {
-			return -1
-		}
-		return 1
+	return bigKey(a).Cmp(bigKey(b))
+}
+
+func checkTimestamps(r *vk.Run, a, b, c *timestamppb.Timestamp, stream string) {
+	ca, cb, cc := proto.Clone(a), proto.Clone(b), proto.Clone(c)
+	desc := fmt.Sprintf("%d.%09d vs %d.%09d", a.Seconds, a.Nanos, b.Seconds, b.Nanos)
+	ab, ba := sctime.CompareAscending(a, b), sctime.CompareAscending(b, a)
+	bc, ac := sctime.CompareAscending(b, c), sctime.CompareAscending(a, c)
+	aa := sctime.CompareAscending(a, proto.Clone(a).(*timestamppb.Timestamp))
+	r.Eval(5)
+	r.Distinct("ts:" + desc)
+	r.Count("timestamp-cases-"+stream, 1)
+	want := chrono(a, b)
+	r.Count(fmt.Sprintf("timestamp-order(%d)", want), 1)
+	if a.Seconds == b.Seconds && a.Nanos != b.Nanos {
+		r.Count("timestamp-same-second-different-nanos", 1)
 	}
-	return sign(int64(a.Nanos) - int64(b.Nanos))
+	if r.WantSample("timestamp-compare-" + stream) {
+		r.Sample("timestamp-compare-"+stream, map[string]any{"a": fmt.Sprintf("%d.%09d", a.Seconds, a.Nanos), "b": fmt.Sprintf("%d.%09d", b.Seconds, b.Nanos), "result": ab})
+	}
+	for _, v := range []int{ab, ba, bc, ac, aa} {
+		if v < -1 || v > 1 {
+			r.Violation("C18/CompareAscending/range", fmt.Sprintf("CompareAscending returned %d on %s (c=%d.%09d); documented results are -1, 0, 1", v, desc, c.Seconds, c.Nanos), desc)
+			break
+		}
+	}
+	if sign(int64(ab)) != want {
+		r.Violation("C18/CompareAscending/order", fmt.Sprintf("CompareAscending(%s) = %d, chronological order says %d", desc, ab, want), desc)
+	}
+	if sign(int64(ab)) != -sign(int64(ba)) {
+		r.Violation("C18/CompareAscending/antisymmetry", fmt.Sprintf("CompareAscending(%s) = %d but reversed = %d", desc, ab, ba), desc)
+	}
+	if aa != 0 {
+		r.Violation("C18/CompareAscending/reflexivity", fmt.Sprintf("CompareAscending(a, copy of a) = %d for a = %d.%09d", aa, a.Seconds, a.Nanos), desc)
+	}
+	if (ab <= 0 && bc <= 0 && ac > 0) || (ab >= 0 && bc >= 0 && ac < 0) || (ab == 0 && bc == 0 && ac != 0) ||
+		(ab < 0 && bc <= 0 && ac >= 0) || (ab <= 0 && bc < 0 && ac >= 0) {
+		r.Violation("C18/CompareAscending/transitivity", fmt.Sprintf("cmp(a,b)=%d cmp(b,c)=%d cmp(a,c)=%d for a=%v b=%v c=%v", ab, bc, ac, a, b, c), desc)
+	}
+	if !proto.Equal(a, ca) || !proto.Equal(b, cb) || !proto.Equal(c, cc) {
+		r.Violation("C18/CompareAscending/mutates-input", "argument changed on "+desc, desc)
+	}
 }
 
 func timestamps(r *vk.Run) {
-	rng := r.Rand("ts")
+	// small grid: every pair and triple
+	var grid []*timestamppb.Timestamp
+	for _, s := range []int64{math.MinInt64, -62135596800, -2, -1, 0, 1, 2, 253402300799, math.MaxInt64} {
+		for _, n := range []int32{0, 1, 999999999} {
+			grid = append(grid, &timestamppb.Timestamp{Seconds: s, Nanos: n})
+		}
+	}
+	idx := 0
+	for _, a := range grid {
+		for _, b := range grid {
+			for _, c := range grid {
+				idx++
+				if r.Mine(idx) {
+					checkTimestamps(r, a, b, c, "grid")
+				}
+			}
+		}
+	}
+	r.Require("timestamp-cases-grid", len(grid)*len(grid)*len(grid))
+
 	gen := func(rng *vk.Rand) *timestamppb.Timestamp {
 		var s int64
 		switch rng.Intn(5) {
@@ -163,33 +335,25 @@ func timestamps(r *vk.Run) {
 	}
 	n := r.Pick(100000, 10000000)
 	for i := 0; i < n; i++ {
+		if !r.Mine(i) {
+			continue
+		}
+		rng := r.CaseRand("ts", i)
 		a, b, c := gen(rng), gen(rng), gen(rng)
 		if rng.Chance(1, 4) {
 			b.Seconds = a.Seconds
 		}
-		if !r.Mine(i) {
-			continue
+		if rng.Chance(1, 4) {
+			c.Seconds = b.Seconds
 		}
-		desc := fmt.Sprintf("%d.%09d vs %d.%09d", a.Seconds, a.Nanos, b.Seconds, b.Nanos)
-		ab, ba := sctime.CompareAscending(a, b), sctime.CompareAscending(b, a)
-		r.Eval(1)
-		r.Distinct("ts:" + desc)
-		if r.WantSample("timestamp-compare") {
-			r.Sample("timestamp-compare", map[string]any{"a": fmt.Sprintf("%d.%09d", a.Seconds, a.Nanos), "b": fmt.Sprintf("%d.%09d", b.Seconds, b.Nanos), "result": ab})
+		if rng.Chance(1, 16) {
+			b.Nanos = a.Nanos
 		}
-		want := chrono(a, b)
-		if ab < -1 || ab > 1 {
-			r.Violation("C18/CompareAscending/range", fmt.Sprintf("CompareAscending(%s) = %d, documented results are -1, 0, 1", desc, ab), desc)
-		}
-		if sign(int64(ab)) != want {
-			r.Violation("C18/CompareAscending/order", fmt.Sprintf("CompareAscending(%s) = %d, chronological order says %d", desc, ab, want), desc)
-		}
-		if sign(int64(ab)) != -sign(int64(ba)) {
-			r.Violation("C18/CompareAscending/antisymmetry", fmt.Sprintf("CompareAscending(%s) = %d but reversed = %d", desc, ab, ba), desc)
-		}
-		bc, ac := sctime.CompareAscending(b, c), sctime.CompareAscending(a, c)
-		if ab <= 0 && bc <= 0 && ac > 0 {
-			r.Violation("C18/CompareAscending/transitivity", fmt.Sprintf("a<=b, b<=c but a>c for a=%v b=%v c=%v", a, b, c), desc)
-		}
+		checkTimestamps(r, a, b, c, "random")
 	}
+	r.Require("timestamp-cases-random", n)
+	r.Require("timestamp-order(-1)", 10000)
+	r.Require("timestamp-order(0)", 300)
+	r.Require("timestamp-order(1)", 10000)
+	r.Require("timestamp-same-second-different-nanos", 5000)
 }
